@@ -42,10 +42,28 @@ pub fn shaped_source(g: &mut Gen, max_len: usize) -> usize {
 pub fn gen_agg(t: &mut Tape) -> Scenario {
     let mut g = Gen::new(t, profile("agg"));
     let timestamped = g.t.draw(3) == 2;
+    // an eighth of the untimestamped runs streams its input in bursts separated by pauses shorter
+    // and longer than the batch delays: keyed state must survive idle periods
+    let bursty = !timestamped && g.t.draw(8) == 7;
     let mut s = if timestamped {
         let o = script_opts(g.t, 0);
         let repl = if g.t.draw(4) == 0 { Repl::One } else { Repl::Unlimited };
         gen_scripted_source(&mut g, &o, repl)
+    } else if bursty {
+        let keys = [1u16, 3, 25][g.t.draw(3) as usize];
+        let nb = 2 + g.t.draw(5) as usize;
+        let mut bursts = vec![];
+        for _ in 0..nb {
+            let pause = [0u64, 500, 8_000, 70_000, 300_000][g.t.draw(5) as usize];
+            let n = [1usize, 2, 5, 20][g.t.draw(4) as usize];
+            bursts.push((pause, g.elems(n, keys)));
+        }
+        let total: usize = bursts.iter().map(|b| b.1.len()).sum();
+        let si = g.sources.len();
+        g.sources.push(Src::Channel(bursts));
+        g.steps.push(Step::Source(si));
+        g.attrs.push(Some(Attr { repl: Repl::One, depth: 0, len: total, keys: keys as usize }));
+        g.attrs.len() - 1
     } else {
         shaped_source(&mut g, 1000)
     };
@@ -79,7 +97,13 @@ pub fn gen_agg(t: &mut Tape) -> Scenario {
     } else {
         g.gen_gl()
     };
-    if !timestamped && g.t.draw(4) == 3 {
+    // bursty input: mostly the operators that keep per-key state between elements
+    let op = if bursty && g.t.draw(3) != 0 {
+        UnOp::Gb([GbForm::RichCounter, GbForm::KeyedMap, GbForm::Fold][g.t.draw(3) as usize], AggFn::Sum)
+    } else {
+        op
+    };
+    if !timestamped && !bursty && g.t.draw(4) == 3 {
         // inside a replay body: one result per key per iteration
         let op = match op {
             UnOp::Gb(GbForm::RichCounter, a) => UnOp::Gb(GbForm::Fold, a),
